@@ -356,6 +356,67 @@ class QueryGetTimes(common.SpaceMixin, Obligation):
         return {'obs': {}, 'violations': viol, 'dates': ds}
 
 
+class QueryGetTimesCF(QueryGetTimes):
+    """getTimes on a CF time coordinate (relative time, standard and
+    fixed-length calendars, int / float32 / float64 storage): the query
+    leaves the coordinate and everything else as it was"""
+
+    def __init__(self, calendar, dt):
+        self.cal, self.dt = calendar, dt
+        self.b = False
+        self.name = 'query-getTimes[CF,%s,%s]' % (calendar, dt)
+        self.bounds = {'T': 2, 'values': 'symbolic whole days in [0, 800]'}
+
+    def space(self):
+        if self._space is None:
+            from verifx import loader, symdatetime as sd
+            self._wr = common.WarnRec()
+            self._space = loader.TwinSpace(stubs={
+                'PseudoNetCDF.pncwarn': common.warn_stub(self._wr),
+                'datetime': sd.make_module()}, objfloat=self.objfloat)
+            self._space.twin('PseudoNetCDF.core._files')
+        return self._space
+
+    def _build(self, F, vals, symbolic):
+        f = F()
+        f.createDimension('time', 2)
+        v = f.createVariable('time', 'O' if symbolic else self.dt, ('time',))
+        for t in range(2):
+            v[t] = vals[t]
+        v.units = 'days since 2000-01-01 00:00:00'
+        v.calendar = self.cal
+        if symbolic:
+            # the machine type the symbolic cells stand for
+            v._as_dtype = np.dtype(self.dt)
+        w = f.createVariable('A', 'O' if symbolic else 'd', ('time',))
+        w[:] = [1, 2]
+        return f
+
+    def sym(self, ctx, h):
+        sp = self.space()
+        F = sp.twin('PseudoNetCDF.core._files').PseudoNetCDFFile
+        vs = [ctx.int('n%d' % t, 0, 800) for t in range(2)]
+        if self.dt != 'i':
+            vs = [v * 1.0 for v in vs]
+        f = self._build(F, vs, True)
+        self.profiled(self._go, f, h.claim)
+
+    def real(self, inputs):
+        import warnings
+        RF = common.real_files()
+        vs = [int(frac_of(inputs.get('n%d' % t, t))) for t in range(2)]
+        f = self._build(RF.PseudoNetCDFFile, vs, False)
+        viol = {}
+
+        def claim(label, e):
+            if not z3.is_true(z3.simplify(e)):
+                viol[label] = 'getTimes modified the file (%s)' % label
+        with warnings.catch_warnings():
+            warnings.simplefilter('ignore')
+            self._go(f, claim)
+        return {'obs': {}, 'violations': viol, 'values': vs}
+
+
 def obligations(tier):
     obs = []
     cat = ops.catalogue(tier)
@@ -383,6 +444,9 @@ def obligations(tier):
                 obs.append(QueryVal2idx(m, d, b))
     obs.append(QueryGetTimes(False))
     obs.append(QueryGetTimes(True))
+    for cal in ('standard', 'noleap', 'all_leap'):
+        for dt in (('d', 'i') if tier == 'quick' else ('d', 'f', 'i')):
+            obs.append(QueryGetTimesCF(cal, dt))
     # IOAPI windows must leave the source file's referencing attributes
     # alone, also when they are held as arrays (checks/c11.py obligations
     # with the source-unchanged claims switched on)
